@@ -211,7 +211,7 @@ func c18Docs(thorough bool) (docs []ManifestArg) {
 	formats := []string{"1", "0", "2", "absent", `"1"`, "1.0", "-1", "18446744073709551617"}
 	src2 := []string{mA, mB, mAalias, "garbage"}
 	loc2 := []string{"d1", "d2", "..", "d1/x", "d1x"}
-	probes := []string{mA, mA + "//m", mB + "//m/n", mAalias + "//m", "git::https://example.com/zzz.git", mReg + "@1.0.0", mReg + "@1.0.0//m", mReg + "@9.9.9"}
+	probes := []string{mA + "//%2e%2e/%2e%2e/outside", mA + "//a%2F..%2F..%2Fx", mA, mA + "//m", mB + "//m/n", mAalias + "//m", "git::https://example.com/zzz.git", mReg + "@1.0.0", mReg + "@1.0.0//m", mReg + "@9.9.9"}
 	add := func(desc, doc string) {
 		docs = append(docs, ManifestArg{Doc: doc, Desc: desc, Probes: probes, Dirs: []string{"d1", "d2", "d1x", "unknown"}})
 	}
@@ -238,7 +238,7 @@ func c18Docs(thorough bool) (docs []ManifestArg) {
 	// registry section
 	regSrcs := []string{mReg, "x", mReg + "//sub", ""}
 	verKeys := []string{"1.0.0", "garbage", "v1.0.0", ""}
-	verSrcs := []string{mA + "//m", "garbage", mA, "git::https://example.com/other.git//../x", mB + "//m/n"}
+	verSrcs := []string{mA + "//%2e%2e/%2e%2e/%2e%2e", mA + "//m", "garbage", mA, "git::https://example.com/other.git//../x", mB + "//m/n"}
 	for _, rs := range regSrcs {
 		for _, vk := range verKeys {
 			for _, vs := range verSrcs {
@@ -254,6 +254,21 @@ func c18Docs(thorough bool) (docs []ManifestArg) {
 			}
 		}
 	}
+	// the same registry package twice (also under two spellings of the default host), disjoint and overlapping versions
+	regEntry := func(src, ver, vsrc string) string {
+		return `{"source":"` + src + `","versions":{"` + ver + `":{"source":"` + vsrc + `","deprecation":null}}}`
+	}
+	for _, second := range []string{mReg, "ns/n/sys", "registry.terraform.io/ns/n/sys"} {
+		first := mReg
+		if second != mReg {
+			first = "registry.terraform.io/ns/n/sys"
+		}
+		for _, v2 := range []string{"1.0.0", "2.0.0"} {
+			add(fmt.Sprintf("registry package %s listed twice (second as %s, version %s)", first, second, v2),
+				manifestDoc("1", []mPkg{{mA, "d1", "", ""}}, regEntry(first, "1.0.0", mA+"//m")+","+regEntry(second, v2, mA+"//m/n")))
+		}
+	}
+	add("registry entry without versions, then again with one", manifestDoc("1", []mPkg{{mA, "d1", "", ""}}, `{"source":"`+mReg+`"},`+regEntry(mReg, "1.0.0", mA)))
 	// duplicates / aliases
 	add("same source twice, different dirs", manifestDoc("1", []mPkg{{mA, "d1", "", ""}, {mA, "d2", "", ""}}, ""))
 	add("aliases sharing one dir, equal length", manifestDoc("1", []mPkg{{"git::https://example.com/x.git", "d1", "", ""}, {"git::https://example.com/y.git", "d1", "", ""}}, ""))
